@@ -1,8 +1,12 @@
 #!/bin/bash
-# tools/mutrun.sh <name> <patch-or-commit> <ID> [tier]   run one check against a scratch worktree of /repo
-# with a patch applied (file) or at a given commit (rev); prints the verdict lines.
+# tools/mutrun.sh <name> <patch-or-rev> <ID> [tier]
+# Runs one check against a scratch worktree of /repo with a patch applied (file) or at a given
+# commit (rev). Uses a private copy of the harness manifest and a separate target directory
+# (/tmp/hcmut-target, builds serialized by a lock), so it never disturbs /verif/harness/Cargo.toml,
+# /verif/target or the committed evidence; safe to run several at once.
 set -u
 name="$1"; what="$2"; id="$3"; tier="${4:-quick}"
+V=/verif
 wt="/tmp/hcmut-$name"
 git -C /repo worktree remove --force "$wt" >/dev/null 2>&1
 if [ -f "$what" ]; then
@@ -12,13 +16,19 @@ if [ -f "$what" ]; then
 else
   git -C /repo worktree add --detach "$wt" "$what" >/dev/null 2>&1 || exit 2
 fi
-out="/tmp/hcmut-out-$name"
-rm -rf "$out"
-cd /verif
-HC_REPO="$wt" HCVERIF_OUT="$out" ./check "$id" "$tier" 2>&1 | grep -E "VIOLATION|KNOWN|done in|supervisor|check:" | cut -c1-400 | head -${MUT_LINES:-6}
-rc=${PIPESTATUS[0]}
+out="/tmp/hcmut-out-$name"; rm -rf "$out"; mkdir -p "$out"; cp $V/known_findings.json "$out/"
+hdir="/tmp/hcmut-harness-$name"; rm -rf "$hdir"; mkdir -p "$hdir"
+sed -e "s#@HC_REPO@#$wt#" -e 's#@HC_FEATURES@#"tokio", "sparse", "replication", "shared-core", "cache"#' $V/harness/Cargo.toml.in > "$hdir/Cargo.toml"
+cp $V/harness/Cargo.lock "$hdir/"; ln -s $V/harness/src "$hdir/src"; ln -s $V/harness/.cargo "$hdir/.cargo"
+bin="/tmp/hcmut-bin-$name"
+(
+  flock 9
+  cd "$hdir" && CARGO_NET_OFFLINE=true CARGO_TARGET_DIR=/tmp/hcmut-target cargo build --release --offline --quiet 2> "$out/build.log" && cp /tmp/hcmut-target/release/hcverif "$bin"
+) 9>/tmp/hcmut.lock
+if [ ! -x "$bin" ]; then echo "check: harness build failed"; tail -5 "$out/build.log"; rc=2; else
+  HCVERIF_DIR="$out" "$bin" "$id" "$tier" 2>&1 | grep -E "VIOLATION|KNOWN|done in|supervisor|check:" | cut -c1-400 | head -${MUT_LINES:-6}
+  rc=${PIPESTATUS[0]}
+fi
 git -C /repo worktree remove --force "$wt" >/dev/null 2>&1
-rm -rf "$out"
-# restore the harness manifest for /repo
-HC_REPO=/repo ./check --build >/dev/null 2>&1
+rm -rf "$out" "$hdir" "$bin"
 exit $rc
